@@ -216,7 +216,11 @@ def run_protocol(sc):
     try:
         with Watch(60), contextlib.redirect_stdout(io.StringIO()):
             eng = Engine(processes=processes, topology=topology, initial_state=state,
-                         display_info=False, emitter='null')
+                         display_info=False,
+                         emitter='timeseries' if sc.get('emit_all') else 'null')
+            if sc.get('emit_all'):
+                # every leaf is emitted, the process nodes included
+                eng.state.set_emit_value(emit=True)
             find_parallel(eng, known)
             drain_hooks(recs)
             recs.append({'ev': 'alive', 'ws': alive(known), 'known': sorted(known)})
@@ -353,7 +357,11 @@ def protocol_scenarios(tier):
                         'bomb': at})
     out.append({'comps': [('a', 2)], 'ops': {0: ('gen', 'g', 3), 2: ('del', 'g')}, 'ticks': 4,
                 'finish': ['end']})
+    # rows that include the process nodes, emitted while updates are in flight
+    for long_ in (False, True):
+        keyonly.append({'comps': [('a', 3), ('b', 1)], 'ops': {}, 'ticks': 4, 'finish': ['end'],
+                        'long': long_, 'emit_all': True})
     if tier == 'quick':
         return out[::2] + [out[1]] + [o for o in out[1::2] if isinstance(o['comps'][0][1], tuple)] \
-            + keyonly[::2] + keyonly[-1:]
+            + keyonly[::2] + keyonly[-3:]
     return out + keyonly
